@@ -263,6 +263,33 @@ def std_model(m, path, args, t):
                     raise Unknown('map with an unknown function value')
                 out.append(r)
             return ('it', out, 'map')
+    mm = re.search(r'Iterator>?::(try_fold|fold)$', path)
+    if mm and len(args) == 3:
+        items = as_items(m, args[0])
+        if items is not None:
+            acc = args[1]
+            for x in items:
+                r = m.apply_fn(args[2], [acc, x])
+                if r is None:
+                    raise Unknown('%s with an unknown function value' % mm.group(1))
+                if mm.group(1) == 'fold':
+                    acc = r
+                    continue
+                rv = m.deref_value(r)
+                if not (isinstance(rv, dict) and '__discr__' in rv and str(rv.get('__adt__', '')).endswith(('Option', 'Result'))):
+                    raise Unknown('try_fold step gives %r' % (rv,))
+                good = 1 if rv['__adt__'].endswith('Option') else 0
+                if rv['__discr__'] != good:
+                    if is_ptr(args[0]) and is_it(m.deref_value(args[0])):
+                        pass
+                    return rv
+                acc = rv['0']
+            if mm.group(1) == 'fold':
+                return acc
+            dest = str(m.b.locals.get(t['dest']['local'], ''))
+            if 'Result<' in dest.split('Option<')[0]:
+                return m.make_adt('core::result::Result::Ok', [acc], [])
+            return some(m, acc)
     if re.search(r'Option::<.*>::map_or$', path) and len(args) == 3:
         o = m.deref_value(args[0])
         if isinstance(o, dict) and '__discr__' in o:
